@@ -1,4 +1,5 @@
 import Proofs.C01
+import Proofs.Gen
 #print axioms Xsel.C01.axis_mem
 #print axioms Xsel.C01.axis_range
 #print axioms Xsel.C01.axis_refines
@@ -22,3 +23,5 @@ import Proofs.C01
 #print axioms Xsel.C01.root_no_parent_no_siblings
 #print axioms Xsel.C01.model_root_no_parent_no_siblings
 #print axioms Xsel.C01.root_children_siblings
+#print axioms Xsel.Gen.axis_dispatch_agrees
+#print axioms Xsel.Gen.selector_cleanup_agrees
